@@ -43,6 +43,8 @@ Lemma pfree_eval e p : pfree e = true -> eval p e = v0 e.
 Proof.
   unfold v0. induction e; simpl; intros H; try reflexivity; try discriminate;
     try (apply andb_prop in H; destruct H as [H1 H2]; rewrite (IHe1 H1), (IHe2 H2); reflexivity);
+    try (apply andb_prop in H; destruct H as [H H3]; apply andb_prop in H; destruct H as [H1 H2];
+         rewrite (IHe1 H1), (IHe2 H2), (IHe3 H3); reflexivity);
     rewrite (IHe H); reflexivity.
 Qed.
 
@@ -55,6 +57,8 @@ Proof.
   - unfold Qcdiv. ring.
   - ring.
   - destruct n; [reflexivity|ring].
+  - apply andb_prop in H; destruct H as [H H3]. apply andb_prop in H; destruct H as [H1 H2].
+    rewrite (IHe2 H2), (IHe3 H3). destruct (Qc_eq_bool (v0 e1) 0); reflexivity.
 Qed.
 
 Lemma qnz_neq q : qnz q = true -> q <> 0.
@@ -89,6 +93,13 @@ Proof.
   - assert (PF : pfree (Pow e n) = true) by exact HA.
     rewrite (dot_ext _ (fun _ => 0)) by (intros i; exact (pfree_d0 (Pow e n) i PF)).
     rewrite dot_zero. rewrite <- (pfree_eval (Pow e n) p PF). simpl. ring.
+  - assert (PF : pfree (IfB e1 e2 e3) = true) by exact HA.
+    rewrite (dot_ext _ (fun _ => 0)) by (intros i; exact (pfree_d0 (IfB e1 e2 e3) i PF)).
+    rewrite dot_zero. rewrite <- (pfree_eval (IfB e1 e2 e3) p PF). simpl. ring.
+  - assert (PF : pfree (NotB e) = true) by exact HA.
+    rewrite dot_zero. rewrite <- (pfree_eval (NotB e) p PF). simpl. ring.
+  - assert (PF : pfree (LtB e1 e2) = true) by exact HA.
+    rewrite dot_zero. rewrite <- (pfree_eval (LtB e1 e2) p PF). simpl. ring.
 Qed.
 
 (* ---------- coercion ---------- *)
@@ -288,7 +299,8 @@ Proof. unfold attr_tag, eff_decl. now intros ->. Qed.
 (* ---------- substitution (_substitute_metadata) ---------- *)
 Lemma subst_eval sg e p : eval p (subst sg e) = eval (map (eval p) sg) e.
 Proof.
-  induction e; simpl; try congruence.
+  induction e; simpl;
+    repeat match goal with H : eval _ (subst _ _) = _ |- _ => rewrite H; clear H end; try reflexivity.
   rewrite <- (map_nth (eval p) sg (Cst 0) i). reflexivity.
 Qed.
 
